@@ -59,9 +59,19 @@ def feasible_paths(prog: Program, fi: FuncInfo, bindings: dict | None = None, ov
                     except (FoldError, AnalysisError, Exception):
                         env[node.targets[0].id] = Hole(node.targets[0].id)
                 elif isinstance(node, ast.Assign) and len(node.targets) == 1 and isinstance(node.targets[0], (ast.Tuple, ast.List)):
-                    for t in node.targets[0].elts:
-                        if isinstance(t, ast.Name):
-                            env[t.id] = Hole(t.id)
+                    elts = node.targets[0].elts
+                    try:
+                        val = _OverrideEvaluator(prog, fi.module, env, overrides).ev(node.value)
+                    except (FoldError, AnalysisError, Exception):
+                        val = None
+                    if isinstance(val, (tuple, list)) and len(val) == len(elts):
+                        for t, v in zip(elts, val):
+                            if isinstance(t, ast.Name):
+                                env[t.id] = v
+                    else:
+                        for t in elts:
+                            if isinstance(t, ast.Name):
+                                env[t.id] = Hole(t.id)
                 elif isinstance(node, (ast.For, ast.AsyncFor)):
                     for t in ast.walk(node.target):
                         if isinstance(t, ast.Name):
@@ -81,6 +91,44 @@ def feasible_paths(prog: Program, fi: FuncInfo, bindings: dict | None = None, ov
                         break
         if ok:
             out.append((tr, status))
+    return out
+
+
+def return_values(prog: Program, fi: FuncInfo, bindings: dict | None = None, overrides: dict | None = None):
+    """For every feasible path that returns: the folded return value, or its source text when it does not fold
+    (a hole).  Locals are re-evaluated along the path exactly as in feasible_paths."""
+    bindings = dict(bindings or {})
+    overrides = dict(overrides or {})
+    out = []
+    for tr, status in feasible_paths(prog, fi, bindings, overrides):
+        if status != "return":
+            continue
+        env = {p: bindings.get(p, Hole(p)) for p in fi.params()}
+        env.update(bindings)
+        for e in tr:
+            if e[0] == "assign" and len(e) >= 4 and isinstance(e[3], ast.Assign) and len(e[3].targets) == 1:
+                tgt = e[3].targets[0]
+                try:
+                    val = _OverrideEvaluator(prog, fi.module, env, overrides).ev(e[3].value)
+                except (FoldError, AnalysisError, Exception):
+                    val = Hole("?")
+                if isinstance(tgt, ast.Name):
+                    env[tgt.id] = val
+                elif isinstance(tgt, (ast.Tuple, ast.List)) and isinstance(val, (tuple, list)) and len(val) == len(tgt.elts):
+                    for t, v in zip(tgt.elts, val):
+                        if isinstance(t, ast.Name):
+                            env[t.id] = v
+        rets = [e for e in tr if e[0] == "return"]
+        if not rets:
+            continue
+        node = rets[-1][-1] if isinstance(rets[-1][-1], ast.AST) else None
+        val = Hole("?")
+        if isinstance(node, ast.Return) and node.value is not None:
+            try:
+                val = _OverrideEvaluator(prog, fi.module, env, overrides).ev(node.value)
+            except (FoldError, AnalysisError, Exception):
+                val = Hole("?")
+        out.append(rets[-1][1] if isinstance(val, Hole) else val)
     return out
 
 
